@@ -156,7 +156,18 @@ class QSweep(Monitor):
             elif isinstance(key, tuple):
                 items = [k for k in key if isinstance(k, tuple)]
                 caps = [k for k in key if isinstance(k, str)]
-                want = [[c, ue[0], ue[1]] for c, ue in items]
+                try:
+                    if not all(
+                        isinstance(k, str) or k is None or (len(k) == 2 and isinstance(k[0], str) and isinstance(k[1], (tuple, list)) and len(k[1]) == 2 and isinstance(k[1][0], str))
+                        for k in key
+                    ):
+                        raise TypeError("unknown key shape")
+                    want = [[c, ue[0], ue[1]] for c, ue in items]
+                except (TypeError, ValueError, IndexError):
+                    # a key of a shape this monitor does not know: how the table is keyed is the
+                    # implementation's business, only keys it can read are held against their entries
+                    sim.count("cache_key_shape_unknown")
+                    continue
                 if want != cheap[5]:
                     ok, why = False, "composing_map"
                 if (caps[0] if caps else "") != (cheap[3] or ""):
